@@ -114,6 +114,12 @@ Proof. exact sem_add. Qed.
 Theorem C08_sem_delete : forall s x sub, exec_delete s x sub (sem s [] sub) = spec_delete s x sub.
 Proof. exact sem_delete. Qed.
 
+(* a collection kept from an earlier query, used again after a removal: the members still there *)
+Theorem C08_collection_survivors : forall s rows victim x,
+  In x (coll_after s rows victim) <->
+  In x (outer_items rows) /\ item_live (match victim with Some v => rm_item s v | None => s end) x = true.
+Proof. exact collection_survivors. Qed.
+
 (* however evaluated: on every reachable store the reverse index the evaluator reads for the first
    constraint delivers exactly the level of [sem] (by C01: every reverse index is exact) *)
 Theorem C08_route_resource : forall ops e tok r, res_by_id (run ops) tok = Some r ->
